@@ -46,7 +46,10 @@ def st_source(draw, ctx, n=None, kind=None, keys=None, min_n=0):
             n = draw(st.integers(min_n, ctx.max_n))
         modes = [m for m in ctx.modes if not (m == 'wu' and n == 0)]
         mode = draw(st.sampled_from(modes))
-        return {'op': 'list', 'id': sid, 'n': n, 'mode': mode, 'dup': draw(st.booleans()) if n >= 2 else False}
+        out = {'op': 'list', 'id': sid, 'n': n, 'mode': mode, 'dup': draw(st.booleans()) if n >= 2 else False}
+        if n and draw(st.integers(0, 7)) == 0:
+            out['none_at'] = draw(st.integers(0, n - 1))  # None is a legitimate stored example
+        return out
     if keys is None:
         if n is None:
             n = draw(st.integers(min_n, ctx.max_n))
@@ -54,7 +57,10 @@ def st_source(draw, ctx, n=None, kind=None, keys=None, min_n=0):
         suffix = draw(st.sampled_from(['', str(sid), '_key']))
         keys = [k + suffix for k in base]
     mode = draw(st.sampled_from([m for m in ctx.modes if m != 'wu'] or ['pickle']))
-    return {'op': 'dict', 'id': sid, 'keys': list(keys), 'mode': mode}
+    out = {'op': 'dict', 'id': sid, 'keys': list(keys), 'mode': mode}
+    if keys and draw(st.integers(0, 7)) == 0:
+        out['none_at'] = draw(st.integers(0, len(keys) - 1))
+    return out
 
 
 def st_slice_form(n, m):
@@ -177,7 +183,10 @@ def st_stage(draw, op, node, m, ctx, allowed, budget):
     if op in ('cache_lazy', 'cache_eager'):
         return {'op': 'cache', 'lazy': op == 'cache_lazy', 'in': node}
     if op == 'catch':
-        return {'op': 'catch', 'exc': draw(st.sampled_from(CATCH_SPECS)), 'in': node}
+        out = {'op': 'catch', 'exc': draw(st.sampled_from(CATCH_SPECS)), 'in': node}
+        if draw(st.integers(0, 2)) == 0:
+            out['warn'] = True
+        return out
     if op == 'copy':
         return {'op': 'copy', 'freeze': draw(st.booleans()), 'in': node}
     if op in ('prefetch', 'prefetch1'):
